@@ -48,6 +48,10 @@ def plan(tier):
         for sta in ('FAILED', 'SKIPPED'):
             for wrk in (1, 2):
                 out.append((C.cfg(n, [], ['ok'] * n, wrk, init=[(n - 1, sta, False)]), 2 if n == 2 or tier == 'thorough' else 1))
+    # a task that reports PENDING as its final status (WAITING is in the common alphabet)
+    for wrk in (1, 2):
+        out.append((C.cfg(2, C.CHAIN2, ['pending', 'ok'], wrk), 1))
+        out.append((C.cfg(2, C.CHAIN2S, ['pending', 'ok'], wrk), 1))
     # a task whose update replaces the entry of ANOTHER task by a non-dictionary, while that task waits, runs or has finished
     for edges in ([], C.CHAIN2S, C.backward_variants(C.CHAIN2S, 2)):
         for wrk in (1, 2):
